@@ -815,6 +815,23 @@ class Normalizer:
                 full = all(isinstance(z, Term) and z.op == "slice" and all(isinstance(q, Term) and q.op == "const" and q.args[0] is None for q in z.args) for z in idx.args[1:])
                 if full:
                     idx = idx.args[0]
+            # selections in reversed order: x[::-1][m[::-1]] = x[flatnonzero(m)[::-1]] = x[m][::-1] (same along axis 1)
+            REV = Term("slice", Term("const", None), Term("const", None), Term("const", Fraction(-1)))
+            def _split_ax(i_):
+                if isinstance(i_, Term) and i_.op == "tuple" and len(i_.args) == 2 and _term_full_slice(i_.args[0]):
+                    return 1, i_.args[1]
+                return 0, i_
+            def _mk_ax(ax_, i_):
+                return i_ if ax_ == 0 else Term("tuple", Term("slice", Term("const", None), Term("const", None), Term("const", None)), i_)
+            ax_o, io = _split_ax(idx)
+            if isinstance(io, Term) and io.op == "getitem" and io.args[1] == REV and isinstance(io.args[0], Term):
+                sel = io.args[0]
+                if sel.op == "nonzero1":
+                    return self.nf(Term("getitem", Term("getitem", base, _mk_ax(ax_o, sel.args[0])), _mk_ax(ax_o, REV)))
+                if isinstance(base, Term) and base.op == "getitem" and sel.op in ("lt", "le", "gt", "ge", "eq", "ne", "bitand", "bitor", "invert"):
+                    ax_i, ii = _split_ax(base.args[1])
+                    if ax_i == ax_o and ii == REV:
+                        return self.nf(Term("getitem", Term("getitem", base.args[0], _mk_ax(ax_o, sel)), _mk_ax(ax_o, REV)))
             idx = _canon_idx_term(idx)  # a[np.flatnonzero(m)] selects the same entries as a[m]
             # a[i][:, s] = a[i, s] for a first-axis selection i and a basic slice s
             if isinstance(base, Term) and base.op == "getitem" and isinstance(idx, Term) and idx.op == "tuple" and len(idx.args) == 2 and _term_full_slice(idx.args[0]) and isinstance(idx.args[1], Term) and idx.args[1].op == "slice":
@@ -884,6 +901,26 @@ class Normalizer:
                 if v2 is not None:
                     return _mk_where(fi, wrap(self.nf(v2)), wrap(self.nf(base)))
             return P_atom(A("store", wrap(self.nf(base)), fi, wrap(self.nf(val))))
+        if op == "where3" and len(a) == 3 and isinstance(a[0], Term) and a[0].op == "store" and len(a[0].args) == 3:
+            # where(m, x, c) with the mask m = (all True, then m[idx] = False): x with x[idx] = c
+            mb, midx, mval = a[0].args
+            def _allconst(b_, flag):
+                return isinstance(b_, Term) and ((b_.op == "ones" and flag) or (b_.op == "zeros" and not flag) or (b_.op == "full" and isinstance(b_.args[0], Term) and b_.args[0].op == "const" and b_.args[0].args[0] is flag) or (b_.op == "astype" and _allconst(b_.args[0], flag)))
+            def _is(v_, flag):
+                return isinstance(v_, Term) and v_.op == "const" and (v_.args[0] is flag or (not isinstance(v_.args[0], (str, type(None))) and v_.args[0] == (1 if flag else 0)))
+            if _allconst(mb, True) and _is(mval, False) and isinstance(a[2], Term) and a[2].op == "const":
+                return self.nf(Term("store", a[1], midx, a[2]))
+            if _allconst(mb, False) and _is(mval, True) and isinstance(a[1], Term) and a[1].op == "const":
+                return self.nf(Term("store", a[2], midx, a[1]))
+        if op in ("svd_flip_u", "svd_flip_v") and len(a) == 2 and all(isinstance(x, Term) and x.op == "getitem" for x in a):
+            # the sign convention is fixed per component: it commutes with re-ordering the components of
+            # both factors in the same way (columns of U, rows of Vt)
+            (ub, ui), (vb, vi) = a[0].args, a[1].args
+            if isinstance(ui, Term) and ui.op == "tuple" and len(ui.args) == 2 and _term_full_slice(ui.args[0]) and ui.args[1] == vi and isinstance(vi, Term) and vi.op == "slice" and vi == Term("slice", Term("const", None), Term("const", None), Term("const", Fraction(-1))):
+                inner = Term(op, ub, vb)
+                return self.nf(Term("getitem", inner, ui if op == "svd_flip_u" else vi))
+        if op == "sorted" and len(a) == 1:
+            return self.nf(Term("sort", a[0]))  # the sorted values (as a list or as an array)
         if op == "where3" and len(a) == 3:
             return _mk_where(self.freeze(a[0]), self.freeze(a[1]), self.freeze(a[2]))
         if op == "comp" and len(a) >= 3 and isinstance(a[2], Term):
